@@ -388,6 +388,17 @@ func (u *Unit) loopHeapEffects(n ast.Node) (all bool, some map[string]bool) {
 					return true
 				}
 			}
+			if sub, _ := u.fncallFor(n); sub != nil {
+				// assumed contract of this call site: only its modifies list is written
+				for _, m := range sub.Modifies {
+					if name, _, ok := ghostModifies(m); ok {
+						some[u.ghostHeap(name)] = true
+						continue
+					}
+					all = true
+				}
+				return true
+			}
 			callee, _ := u.staticCallee(n)
 			if callee == nil {
 				if fl := u.inlineTarget(n); fl != nil {
